@@ -2,6 +2,8 @@
 
 package internal
 
+import "sync"
+
 // Smoke harnesses used by the engine self-test.
 
 func ZZ_Smoke_Arith() {
@@ -33,4 +35,32 @@ func ZZ_Smoke_Store() {
 	vfAssert("get-hit", hit && v == 100)
 	s.Wait()
 	vfAssert("size", s.EstimatedSize() == 1)
+}
+
+// ZZ_Smoke_Race: a planted data race (two unsynchronised writers) must be reported by the race monitor,
+// and the same program with a mutex must not.
+func ZZ_Smoke_Race() {
+	vfSetRaceDetector(true)
+	vfSetPreemptions(1)
+	locked := vfConfig("LOCKED", 0) == 1
+	var mu sync.Mutex
+	x := 0
+	done := make(chan int, 2)
+	for i := 0; i < 2; i++ {
+		go func() {
+			if locked {
+				mu.Lock()
+			}
+			x++
+			if locked {
+				mu.Unlock()
+			}
+			done <- 1
+		}()
+	}
+	<-done
+	<-done
+	vfReach("end")
+	vfAssertNoRace("no-data-race")
+	vfAssert("sum", x == 2 || !locked)
 }
